@@ -5,6 +5,7 @@ import (
 	"go/ast"
 	"go/token"
 	"go/types"
+	"regexp"
 	"sort"
 	"strings"
 
@@ -12,6 +13,8 @@ import (
 
 	. "verif/sa/core"
 )
+
+var m1ProfileCall = regexp.MustCompile(`^[A-Za-z_][A-Za-z0-9_]*\(\$r[,)]`)
 
 func init() {
 	Register(&Property{
@@ -222,7 +225,8 @@ func c50(c *Ctx) {
 		var opt []string
 		for _, f := range FactsAtInstr(rejIn) {
 			for t := range f.Atom.L.Coef {
-				if strings.HasPrefix(t, "$r.") {
+				// a field of the profile, or any call that receives the profile (p.validateLabels(), ...)
+				if strings.HasPrefix(t, "$r.") || m1ProfileCall.MatchString(t) {
 					opt = append(opt, f.Atom.String())
 				}
 			}
